@@ -26,7 +26,7 @@ EXTENDS Naturals, Integers, Sequences, FiniteSets, TLC, Json
 CONSTANTS MaxSteps, UseCatchCache   \* UseCatchCache = TRUE: as built; FALSE: catch never replays
 
 Err == -99
-Tasks == {"main", "div", "rec", "twice", "cat", "vinc"}
+Tasks == {"main", "guard", "div", "rec", "twice", "cat", "vinc"}
 Vers == 1..2
 
 E(k, v, t, a, h) == [k |-> k, v |-> v, t |-> t, a |-> a, h |-> h]
@@ -38,7 +38,8 @@ Plus(t1, a1, t2) == E("plus", 0, t1, a1, t2)       \* t1(a1) + t2(a1)   (lazy op
 
 \* one reduction step of a call, under body versions bd and file version fv
 Body(t, bd, a, fv) ==
-  CASE t = "main"  -> IF bd[t] = 1 THEN CatchE("div", a, "rec") ELSE Plus("twice", a, "cat")
+  CASE t = "main"  -> IF bd[t] = 1 THEN Plus("guard", a, "cat") ELSE Call("twice", a)
+    [] t = "guard" -> IF bd[t] = 1 THEN CatchE("div", a, "rec") ELSE Val(5)
     [] t = "div"   -> IF bd[t] = 1 THEN Raise ELSE Val(42 + a)
     [] t = "rec"   -> IF bd[t] = 1 THEN Val(-1) ELSE Val(-2)
     [] t = "twice" -> IF bd[t] = 1 THEN Call("div", a) ELSE Call("vinc", a + a)
